@@ -1,6 +1,7 @@
 import CollectionsC.Base.Status
 import CollectionsC.Base.Mem
 import CollectionsC.Base.Buf
+import CollectionsC.Model.BufFast
 import CollectionsC.Spec.SeqSized
 /-! Concrete model of `src/sized/cc_array_sized.c`: the fields of `struct cc_array_sized_s`
 (`data_length`, `size`, `capacity`, the growth rule, the flat byte buffer) and the statements of
@@ -46,6 +47,35 @@ def fresh (n : Nat) : Buf Nat := List.replicate n poison
 stores in `out` -/
 def chunkAt (dl : Nat) (b : Buf Nat) (i : Nat) : List Nat :=
   (List.range dl).map fun j => b.get (dl * i + j)
+
+/-- linear-time version of `chunkAt` for the compiled driver (proved equal, `@[csimp]` below) -/
+def chunkAtFast (dl : Nat) (b : Buf Nat) (i : Nat) : List Nat :=
+  let t := (b.drop (dl * i)).take dl
+  t ++ List.replicate (dl - t.length) 0
+
+theorem chunkAt_eq_fast (dl : Nat) (b : Buf Nat) (i : Nat) : chunkAt dl b i = chunkAtFast dl b i := by
+  unfold chunkAt chunkAtFast
+  apply List.ext_getElem
+  · simp; omega
+  · intro j h1 h2
+    have hj : j < dl := by simpa using h1
+    simp only [List.getElem_map, List.getElem_range, Buf.get, List.getD_eq_getElem?_getD, List.getElem_append]
+    split
+    · rename_i hlt
+      simp only [List.length_take, List.length_drop] at hlt
+      rw [List.getElem_take, List.getElem_drop]
+      have : dl * i + j < b.length := by omega
+      simp [this]
+    · rename_i hge
+      simp only [List.length_take, List.length_drop] at hge
+      have : b.length ≤ dl * i + j := by omega
+      simp [List.getElem?_eq_none this]
+
+end ArraySized
+@[csimp] theorem ArraySized.chunkAt_csimp : @ArraySized.chunkAt = @ArraySized.chunkAtFast := by
+  funext dl b i; exact ArraySized.chunkAt_eq_fast dl b i
+namespace ArraySized
+open Gen
 
 def chunk (a : ArraySized) (i : Nat) : List Nat := chunkAt a.dataLen a.buf i
 
